@@ -453,6 +453,17 @@ pub fn resolve<'a>(sf: &'a SourceFile, path: &str) -> std::result::Result<Cur<'a
             let coll = collect(&cur);
             let m = coll.matches.get(k - 1).ok_or_else(|| lost("no such match"))?;
             cur = Cur::Expr(&m.expr);
+        } else if seg == "body" {
+            // the statements (through the tail expression) of a function body
+            let blk: &Block = match &cur {
+                Cur::ItemFn(x) => &x.block,
+                Cur::ImplFn(x) => &x.block,
+                _ => return Err(lost("body outside fn")),
+            };
+            cur = match blk.stmts.as_slice() {
+                [Stmt::Expr(e, None)] => Cur::Expr(e),
+                st => Cur::Stmts(st),
+            };
         } else if let Some(n) = seg.strip_prefix("mcall ") {
             // the argument list of the k-th method call with the given method name
             let (name, k) = split_ord(n);
